@@ -67,7 +67,13 @@ static void run_script(const std::vector<std::string> &lines) {
                     int tnv = (int)twin.mesh.n_vertices();
                     Result r2 = exec_line(twin, t2);
                     mark_new_vertices(twin, tnv);
-                    if (r2.rejected || r2.has != r.has || r2.r != r.r) { out.fail("C12", "with all incidences enabled the same call returns " + std::to_string(r2.r) + (r2.rejected ? " (rejected)" : "")); twin_ok = false; }
+                    // add_edge without duplicates returns AN existing edge between the two vertices; with parallel edges (made with
+                    // allow_duplicates) which one depends on scan vs. cache order - the mesh is the same, so equal endpoints suffice
+                    bool same_existing_edge = op == "AddE" && !r2.rejected && r.has && r2.has && b.E.size() == a.E.size() &&
+                        a.live_e(r.r) && a.live_e(r2.r) &&
+                        std::minmax(a.E[r.r].first, a.E[r.r].second) == std::minmax(a.E[r2.r].first, a.E[r2.r].second);
+                    if (same_existing_edge) { /* equivalent answers */ }
+                    else if (r2.rejected || r2.has != r.has || r2.r != r.r) { out.fail("C12", "with all incidences enabled the same call returns " + std::to_string(r2.r) + (r2.rejected ? " (rejected)" : "")); twin_ok = false; }
                 }
                 if (twin_ok) {
                     Snap t = take_snap(twin);
